@@ -47,6 +47,7 @@ type Univ struct {
 	boxOrder  []string
 	typeTags  map[string]int // go type string -> tag
 	nfresh    int
+	facts     []string // global facts about generated constants
 	inProg    map[string]bool
 	marshals  map[string]bool
 }
@@ -450,6 +451,9 @@ func (u *Univ) Decls() string {
 		b.WriteString(c)
 		b.WriteString("\n")
 	}
+	for _, f := range u.facts {
+		b.WriteString("(assert " + f + ")\n")
+	}
 	return b.String()
 }
 
@@ -663,7 +667,14 @@ func (u *Univ) Zero(t types.Type) string {
 		return "iface.nil"
 	case *types.Array:
 		es := u.SortOf(tt.Elem())
-		return fmt.Sprintf("((as const (Array Int %s)) %s)", es, u.Zero(tt.Elem()))
+		z := u.Zero(tt.Elem())
+		if isValueTerm(z) {
+			return fmt.Sprintf("((as const (Array Int %s)) %s)", es, z)
+		}
+		// cvc5 accepts only values in constant arrays: use a fresh array, zero at every index
+		a := u.Fresh("zeroarr", "(Array Int "+es+")")
+		u.facts = append(u.facts, fmt.Sprintf("(forall ((i!z Int)) (! (= (select %s i!z) %s) :pattern ((select %s i!z))))", a, z, a))
+		return a
 	case *types.Map:
 		ks, vs := u.SortOf(tt.Key()), u.SortOf(tt.Elem())
 		return fmt.Sprintf("((as const (Array %s (Opt %s))) (as None (Opt %s)))", ks, vs, vs)
@@ -673,4 +684,12 @@ func (u *Univ) Zero(t types.Type) string {
 		return u.Const("fn.nil", "Fn")
 	}
 	return u.Fresh("zero", u.SortOf(t))
+}
+
+// isValueTerm: literals and constructor applications over literals (what cvc5 accepts inside constant arrays)
+func isValueTerm(t string) bool {
+	if strings.Contains(t, "str!") || strings.Contains(t, "!") {
+		return false
+	}
+	return true
 }
